@@ -10,7 +10,7 @@ if not os.path.exists(os.path.join(ROOT, 'lean', '.lake')):
 bad = []
 for seed in range(a, b):
     for i in ids:
-        p = subprocess.run(['/venv/bin/python', os.path.join(ROOT, 'tools', 'check.py'), i, '--tier', 'quick'],
+        p = subprocess.run(['/venv/bin/python', os.path.join(ROOT, 'tools', 'check.py'), i, '--tier', os.environ.get('SOAK_TIER', 'quick')],
                            cwd=ROOT, env=dict(os.environ, VERIF_SEED=str(seed)), capture_output=True, text=True)
         last = [l for l in p.stdout.split('\n') if l.startswith(('OK', 'FAIL', 'INFRA'))][-1:]
         print(seed, i, p.returncode, last, flush=True)
